@@ -50,8 +50,8 @@ func equalArms(c *Ctx, rule string, totality bool) {
 		return ""
 	}
 	type arm struct {
-		T      types.Type
-		aAssert *ssa.TypeAssert
+		T        types.Type
+		aAssert  *ssa.TypeAssert
 		bAsserts []*ssa.TypeAssert
 	}
 	arms := map[string]*arm{}
@@ -281,7 +281,10 @@ func sameFieldEq(v ssa.Value, aT *ssa.TypeAssert, bTs []*ssa.TypeAssert) bool {
 		if pa == "" || pa != pb {
 			return false
 		}
-		isA := func(r ssa.Value) bool { ex, ok := r.(*ssa.Extract); return (ok && ex.Tuple == ssa.Value(aT)) || r == ssa.Value(aT) }
+		isA := func(r ssa.Value) bool {
+			ex, ok := r.(*ssa.Extract)
+			return (ok && ex.Tuple == ssa.Value(aT)) || r == ssa.Value(aT)
+		}
 		isB := func(r ssa.Value) bool {
 			for _, bt := range bTs {
 				if ex, ok := r.(*ssa.Extract); (ok && ex.Tuple == ssa.Value(bt)) || r == ssa.Value(bt) {
